@@ -52,30 +52,65 @@ def _has_eps(rx):
     return in_lang(to_z3(rx), '')
 
 
+def _literals(rx):
+    """list of strings if rx is a finite union of literal strings, else None"""
+    if rx.op == 'eps':
+        return ['']
+    if rx.op == 'set':
+        rs = rx.a[0]
+        if len(rs) == 1 and rs[0][0] == rs[0][1]:
+            return [chr(rs[0][0])]
+        return None
+    if rx.op == 'cat':
+        out = ''
+        for c in rx.a[0]:
+            l = _literals(c)
+            if l is None or len(l) != 1:
+                return None
+            out += l[0]
+        return [out]
+    if rx.op == 'alt':
+        out = []
+        for c in rx.a[0]:
+            l = _literals(c)
+            if l is None:
+                return None
+            out += l
+        return out
+    return None
+
+
 def urlsplit_netloc_lang(R):
     """{ s : urlsplit(s) does not raise and urlsplit(s).netloc in L(R) }   (CPython 3.12 urlsplit:
     lstrip C0/space, remove TAB/CR/LF, optional scheme = ALPHA SCH* ':' up to the first ':', netloc only
     after a leading '//', ends at the first of / ? #).  Netlocs containing '[' or ']' are modelled as
-    rejected (exact when R contains no bracket, which the caller guarantees by intersecting with NLSAFE)."""
-    nl = inter(R, star(NLSAFE()))
+    rejected (exact when R contains no bracket).  Every word of the un-erased body starts with a
+    non-strippable character, hence STRIP* . erase_preimage(body) is exact."""
+    lits = _literals(R)
+    safe = NLSAFE().a[0]
+    if lits is not None and all(strlang.rs_contains(safe, ord(c)) for w in lits for c in w):
+        nl = R
+    else:
+        nl = inter(R, star(NLSAFE()))
     end = alt(EPS(), cat(cset('/?#'), ALL()))
     rest = cat(lit('//'), nl, end)
-    if _has_eps(R):
-        rest = alt(rest, compl(cat(lit('//'), ALL())))
     scheme = cat(ALPHA, star(SCH), lit(':'))
-    body = alt(cat(scheme, rest), inter(compl(cat(scheme, ALL())), rest))
-    mid = inter(erase_preimage(body, T), alt(EPS(), cat(NOTSTRIP, ALL())))
-    return cat(star(STRIP), mid)
+    if not _has_eps(R):
+        body = cat(opt(scheme), rest)       # a word starting with '/' never has a scheme
+    else:
+        rest2 = compl(cat(lit('//'), ALL()))
+        body = alt(cat(scheme, alt(rest, rest2)), rest,
+                   inter(compl(cat(scheme, ALL())), rest2, alt(EPS(), cat(NOTSTRIP, ALL()))))
+    return cat(star(STRIP), erase_preimage(body, T))
 
 
-def urlsplit_hostname_lang(R):
-    """{ s : urlsplit(s).hostname in L(R) } for bracket-free netlocs: hostname = text after the last '@' up to
-    the first ':', lower-cased (None when empty, which is in no language)."""
+def hostname_netlocs(R):
+    """netloc values whose SplitResult.hostname is in L(R) (bracket-free netlocs): hostname = text after the
+    last '@' up to the first ':', lower-cased (None when empty, which is in no language)."""
     hch = Rx('set', rs_minus(NLSAFE().a[0], ((ord('@'), ord('@')), (ord(':'), ord(':')))))
     noat = Rx('set', rs_minus(NLSAFE().a[0], ((ord('@'), ord('@')),)))
     h = inter(map_preimage(R, lower_inverse), plus(hch))
-    netloc = cat(opt(cat(star(NLSAFE()), lit('@'))), h, opt(cat(lit(':'), star(noat))))
-    return urlsplit_netloc_lang(netloc)
+    return cat(opt(cat(star(NLSAFE()), lit('@'))), h, opt(cat(lit(':'), star(noat))))
 
 
 # ---- WHATWG URL parser: independent state-machine transcription (reference for the regex model) --------
@@ -217,8 +252,10 @@ def browser_target(inp, base_scheme, base_host):
 # ---- WHATWG URL parser as regular languages ---------------------------------------------------------
 def _whatwg_pre(X):
     """{ s : remove_TABCRLF(strip_C0space(s)) in L(X) }"""
-    mid = inter(erase_preimage(X, T), alt(EPS(), NOTSTRIP, cat(NOTSTRIP, ALL(), NOTSTRIP)))
-    return cat(star(STRIP), mid, star(STRIP))
+    # words of X that neither start nor end with a strippable character; T is a subset of STRIP, so
+    # STRIP* . erase_preimage(X') . STRIP* is exactly the set above
+    Xp = inter(X, alt(EPS(), NOTSTRIP, cat(NOTSTRIP, ALL(), NOTSTRIP)))
+    return cat(star(STRIP), erase_preimage(Xp, T), star(STRIP))
 
 
 def _auth_special(h):
@@ -275,7 +312,9 @@ class Component:
 class ValidatorTranslator:
     """`validate_next_page_url(x)`-shaped functions: a sequence of `if TEST: raise`, assignments of
     expressions that do not mention the parameter (evaluated concretely in the real module namespace with
-    the deployment under test), and assignments `v = urlparse(x).netloc|hostname` (symbolic component)."""
+    the deployment under test), and assignments `v = urlparse(x).netloc|hostname` (symbolic component).
+    Negations are pushed down to the atoms; an atom over a component becomes `urlsplit_netloc_lang(R)`
+    for a regex R over netloc values (every string on which urlsplit does not raise has exactly one netloc)."""
 
     def __init__(self, fn, env):
         self.fn = fn
@@ -283,8 +322,8 @@ class ValidatorTranslator:
         self.env = dict(env)
         self.loc = {}
         self.sym = {}
-        self.domain = ALL()     # inputs for which no urlparse call raised so far
         self.concrete = {}      # name -> concretely evaluated value (reported)
+        self._lifted = []
 
     def mentions_arg(self, node):
         return any(isinstance(n, ast.Name) and (n.id == self.arg or n.id in self.sym) for n in ast.walk(node))
@@ -305,8 +344,11 @@ class ValidatorTranslator:
             return self.sym[node.id]
         return None
 
-    def lift(self, comp, R):
-        return urlsplit_netloc_lang(R) if comp.kind == 'netloc' else urlsplit_hostname_lang(R)
+    def lift(self, comp, R, neg):
+        nl = R if comp.kind == 'netloc' else hostname_netlocs(R)
+        out = urlsplit_netloc_lang(compl(nl) if neg else nl)
+        self._lifted.append(out)
+        return out
 
     def strs(self, v):
         if isinstance(v, str):
@@ -315,17 +357,17 @@ class ValidatorTranslator:
             return list(v)
         raise HarnessError(f'expected str or collection of str, got {v!r}')
 
-    def truthy(self, e):
-        """language of inputs (within self.domain) making e truthy"""
+    def truthy(self, e, neg=False):
+        """language of inputs (among those on which no urlparse call raises) making e truthy (falsy if neg)"""
         if isinstance(e, ast.UnaryOp) and isinstance(e.op, ast.Not):
-            return inter(self.domain, compl(self.truthy(e.operand)))
+            return self.truthy(e.operand, not neg)
         if isinstance(e, ast.BoolOp):
-            parts = [self.truthy(v) for v in e.values]
-            return alt(*parts) if isinstance(e.op, ast.Or) else inter(*parts)
+            parts = [self.truthy(v, neg) for v in e.values]
+            return alt(*parts) if isinstance(e.op, ast.Or) != neg else inter(*parts)
         if isinstance(e, ast.Name) and e.id == self.arg:
-            return inter(self.domain, cat(Rx('set', ((0, strlang.PYMAX),)), ALL()))
+            return EPS() if neg else cat(Rx('set', ((0, strlang.PYMAX),)), ALL())
         if not self.mentions_arg(e):
-            return self.domain if self.concrete_eval(e) else EMPTY()
+            return ALL() if bool(self.concrete_eval(e)) != neg else EMPTY()
         if isinstance(e, ast.Compare) and len(e.ops) == 1:
             l, op, r = e.left, e.ops[0], e.comparators[0]
             cl, cr = self.component(l), self.component(r)
@@ -333,21 +375,17 @@ class ValidatorTranslator:
                 val = self.concrete_eval(r)
                 if isinstance(op, (ast.In, ast.NotIn)):
                     if isinstance(val, str):
-                        # V in "string": substring of a constant
                         subs = {val[i:j] for i in range(len(val) + 1) for j in range(i, len(val) + 1)}
                         R = alt(*[lit(s) for s in sorted(subs)])
                     else:
                         R = alt(*[lit(s) for s in self.strs(val)]) if val else EMPTY()
-                    lang = inter(self.domain, self.lift(cl, R))
-                    return lang if isinstance(op, ast.In) else inter(self.domain, compl(lang))
+                    return self.lift(cl, R, isinstance(op, ast.NotIn) != neg)
                 if isinstance(op, (ast.Eq, ast.NotEq)) and isinstance(val, str):
-                    lang = inter(self.domain, self.lift(cl, lit(val)))
-                    return lang if isinstance(op, ast.Eq) else inter(self.domain, compl(lang))
+                    return self.lift(cl, lit(val), isinstance(op, ast.NotEq) != neg)
             if cr is not None and not self.mentions_arg(l) and isinstance(op, (ast.In, ast.NotIn)):
                 val = self.concrete_eval(l)
                 if isinstance(val, str):
-                    lang = inter(self.domain, self.lift(cr, cat(ALL(), lit(val), ALL())))
-                    return lang if isinstance(op, ast.In) else inter(self.domain, compl(lang))
+                    return self.lift(cr, cat(ALL(), lit(val), ALL()), isinstance(op, ast.NotIn) != neg)
         if isinstance(e, ast.Call):
             f = e.func
             if isinstance(f, ast.Attribute) and f.attr in ('endswith', 'startswith') and len(e.args) == 1 \
@@ -359,7 +397,7 @@ class ValidatorTranslator:
                         R = alt(*[cat(ALL(), lit(v)) for v in vals])
                     else:
                         R = alt(*[cat(lit(v), ALL()) for v in vals])
-                    return inter(self.domain, self.lift(c, R))
+                    return self.lift(c, R, neg)
             if isinstance(f, ast.Name) and f.id in ('any', 'all') and len(e.args) == 1 \
                     and isinstance(e.args[0], ast.GeneratorExp) and len(e.args[0].generators) == 1:
                 g = e.args[0].generators[0]
@@ -369,16 +407,17 @@ class ValidatorTranslator:
                     for it in items:
                         saved = dict(self.loc)
                         self.loc[g.target.id] = it
-                        parts.append(self.truthy(e.args[0].elt))
+                        parts.append(self.truthy(e.args[0].elt, neg))
                         self.loc = saved
-                    if f.id == 'any':
+                    if (f.id == 'any') != neg:
                         return alt(*parts) if parts else EMPTY()
-                    return inter(*parts) if parts else self.domain
+                    return inter(*parts) if parts else ALL()
         raise HarnessError(f'validator test not in the translatable subset: {ast.unparse(e)}')
 
     def accepted(self):
         """language of strings for which the function returns without raising"""
-        path = ALL()
+        conj = []
+        parsed = False
         for st in self.fn.body:
             if isinstance(st, ast.Expr) and isinstance(st.value, ast.Constant):
                 continue
@@ -387,9 +426,7 @@ class ValidatorTranslator:
                 comp = self.component(st.value)
                 if comp is not None:
                     self.sym[name] = comp
-                    # the urlparse call itself may raise ValueError: such inputs leave the accepted set
-                    self.domain = inter(self.domain, urlsplit_netloc_lang(ALL()))
-                    path = inter(path, self.domain)
+                    parsed = True
                     continue
                 if self.mentions_arg(st.value):
                     raise HarnessError(f'assignment not in the translatable subset: {ast.unparse(st)}')
@@ -397,7 +434,13 @@ class ValidatorTranslator:
                 self.concrete[name] = self.loc[name]
                 continue
             if isinstance(st, ast.If) and not st.orelse and len(st.body) == 1 and isinstance(st.body[0], ast.Raise):
-                path = inter(path, compl(self.truthy(st.test)))
+                conj.append(self.truthy(st.test, neg=True))
                 continue
             raise HarnessError(f'statement not in the translatable subset: {ast.unparse(st)}')
-        return path
+        conj = [c for c in conj if c.op != 'all']
+        if parsed and not any(c is l for c in conj for l in self._lifted):
+            # the urlparse call itself may raise ValueError: such inputs leave the accepted set
+            conj.append(urlsplit_netloc_lang(ALL()))
+        if not conj:
+            return ALL()
+        return inter(*conj)
